@@ -139,6 +139,18 @@ func newRing(cap int, full bool, base int) (*ringbuf.Ring, []int) {
 	return r, pre
 }
 
+// safely runs f and returns the panic message, if any. (A panic inside Ring leaves its mutex
+// locked only if the deferred Unlock is missing; the ring is abandoned afterwards anyway.)
+func safely(f func()) (msg string) {
+	defer func() {
+		if r := recover(); r != nil {
+			msg = fmt.Sprint(r)
+		}
+	}()
+	f()
+	return ""
+}
+
 // ---------------------------------------------------------------------------------------------
 // A. sequential stream
 
@@ -189,7 +201,14 @@ func sequential(e *vlib.Env, r *vlib.Rand, nRings int) {
 				if ln > 0 && wr == 0 && !cl {
 					block = false // would wait for ever in a sequential stream
 				}
-				n, blocked := ring.Write(toEntries(es), block)
+				var n int
+				var blocked bool
+				if p := safely(func() { n, blocked = ring.Write(toEntries(es), block) }); p != "" {
+					hist = append(hist, fmt.Sprintf("write(%s, block=%v) PANIC", ids(es), block))
+					e.Op(fmt.Sprintf("w %s %s", b2s(block), ids(es)), "PANIC", "panic")
+					bad("panic", "Write panicked: "+p)
+					break
+				}
 				hist = append(hist, fmt.Sprintf("write(%s, block=%v) = %d", ids(es), block, n))
 				tag := "write/some"
 				switch {
@@ -209,11 +228,11 @@ func sequential(e *vlib.Env, r *vlib.Rand, nRings int) {
 				wn, en := spec.write(es, block)
 				if !en || wn != n {
 					bad("seq-write", fmt.Sprintf("Write of %d entries returned %d, a bounded FIFO with %d free of %d returns %d", ln, n, cap-len(spec.q)+max(wn, 0), cap, wn))
-					return
+					break
 				}
 				if blocked {
 					bad("seq-blocked-flag", "Write reported that it blocked although it could proceed at once")
-					return
+					break
 				}
 			} else {
 				ln := r.Intn(21)
@@ -225,7 +244,14 @@ func sequential(e *vlib.Env, r *vlib.Rand, nRings int) {
 					block = false
 				}
 				buf := make(ringbuf.EntryList, ln)
-				n, blocked := ring.Read(buf, block)
+				var n int
+				var blocked bool
+				if p := safely(func() { n, blocked = ring.Read(buf, block) }); p != "" {
+					hist = append(hist, fmt.Sprintf("read(len=%d, block=%v) PANIC", ln, block))
+					e.Op(fmt.Sprintf("r %s %d", b2s(block), ln), "PANIC", "panic")
+					bad("panic", "Read panicked: "+p)
+					break
+				}
 				var got []int
 				if n > 0 {
 					got = fromEntries(buf[:n])
@@ -249,11 +275,11 @@ func sequential(e *vlib.Env, r *vlib.Rand, nRings int) {
 				rn, rout, en := spec.read(ln, block)
 				if !en || rn != n || ids(rout) != ids(got) {
 					bad("seq-read", fmt.Sprintf("Read(len=%d) returned %d %s, a bounded FIFO returns %d %s", ln, n, ids(got), rn, ids(rout)))
-					return
+					break
 				}
 				if blocked {
 					bad("seq-blocked-flag", "Read reported that it blocked although it could proceed at once")
-					return
+					break
 				}
 			}
 		}
@@ -273,6 +299,7 @@ type cop struct {
 	n        int
 	got      []int
 	blocked  bool
+	panicked string
 }
 
 func (o *cop) String() string {
@@ -368,6 +395,13 @@ func runHistory(r *vlib.Rand, slowConfirm bool) (*history, string, string) {
 	}
 	var seq atomic.Int64
 	exec := func(o *cop) {
+		defer func() {
+			if r := recover(); r != nil {
+				o.panicked = fmt.Sprint(r)
+				o.ret = seq.Add(1)
+				o.n = -99
+			}
+		}()
 		switch o.kind {
 		case 'w':
 			el := toEntries(o.es)
@@ -605,6 +639,18 @@ func main() {
 			e.Violate("C48/"+stuck, what, h.dump())
 			// a ring whose callers hang cannot be linearised meaningfully; go on with the next
 			e.Case(fmt.Sprint("stuck", i), "history/stuck", false)
+			continue
+		}
+		panicked := false
+		for _, o := range h.ops {
+			if o.panicked != "" && !panicked {
+				panicked = true
+				h.note = o.String() + " PANIC " + o.panicked
+				e.Violate("C48/panic", "a ring operation panicked: "+o.panicked, h.dump())
+			}
+		}
+		if panicked {
+			e.Case(fmt.Sprint("panic", i), "history/panic", false)
 			continue
 		}
 		for _, o := range h.ops {
